@@ -242,7 +242,7 @@ theorem register_outcome (n : Node) (verb : Bytes) (mid : Nat) (m : Meth) :
     (∃ n', register n verb mid (fun _ => .ok m) = .ok n') ∨
       register n verb mid (fun _ => .ok m) = .err "duplicate-rule" := by
   obtain ⟨segs, methods, all, vars⟩ := n
-  simp only [register]
+  simp only [register, registerCore]
   split
   · split
     · exact Or.inr rfl
@@ -340,7 +340,7 @@ theorem valid_binding_accepted_on_empty (cap : Nat) (resolve : List Bytes → Op
   rw [parseToks_tmpl resolve t hres _ hlen]
   simp only [hbody, hresp, Bool.not_true, Bool.false_eq_true, if_false]
   apply insertAt_empty
-  simp only [Node.empty, register, lookupMeth, ite_self]
+  simp only [Node.empty, register, registerCore, lookupMeth, ite_self]
   split <;> exact ⟨_, rfl⟩
 
 end Larking.Trie
